@@ -1,5 +1,6 @@
 """C18: every emoticon and emoji name in the tables produces its emoji."""
 import obl_assembly as A
+import obl_fixed
 
 
 def run(c):
@@ -9,5 +10,11 @@ def run(c):
     ct = A.conv_table_for([p for w in A.WRAPPERS_QUICK for p in w])
     A.obl_emoji(c, ct, thorough=(c.tier == "thorough"), budget_s=1500)
     A.obl_fixed_assembly(c, thorough=(c.tier == "thorough"), budget_s=1200)
+    # the fixed assembly takes the raw keys as given: that they are the keys of the word in progress (empty when nothing is composed) is the
+    # session invariant, preserved by every event
+    if c.tier == "quick":
+        obl_fixed.obl_session_fixed(c, 2, 2, 1, budget_s=900)
+    else:
+        obl_fixed.obl_session_fixed(c, 3, 3, 2, budget_s=3000)
     c.outside("the walk over the 321 emoticons / 1389 English / 1007 Bengali names of the emojicon tables (enumeration of concrete rows is "
               "not a solver query); the fixed-layout method's Bengali-name path is covered by C15's assembly obligation")
